@@ -452,7 +452,8 @@ void checkOracles(const Desc& d, const Obs& o, RunResult& r) {
             for (size_t i = 0; i < segFails.size() && i < expN; i++) {
                 const FailRec& fr = o.fails[segFails[i]]; const ExpFail& ef = x.fails[i];
                 const char* prop = ef.kind == 4 ? "C07" : "C01";
-                if (fr.msg.find(ef.token) == Str::npos) r.fail(prop, "failure_text", sigOf("kind", sfmt("%d", ef.kind)), sfmt("test %d failure %zu: message does not carry '%s': %s", st.test, i, ef.token.c_str(), fr.msg.c_str()));
+                // only text the test itself supplied is demanded back; how the framework words its own failures is not the property's business
+                if (ef.token.compare(0, 2, "tk") == 0 && fr.msg.find(ef.token) == Str::npos) r.fail(prop, "failure_text", sigOf("kind", sfmt("%d", ef.kind)), sfmt("test %d failure %zu: message does not carry '%s': %s", st.test, i, ef.token.c_str(), fr.msg.c_str()));
                 if (!ef.anyLocation && (fr.file != ef.file || fr.line != ef.line)) r.fail(prop, "failure_location", sigOf("kind", sfmt("%d", ef.kind)), sfmt("test %d failure %zu at %s:%zu, expected %s:%zu", st.test, i, fr.file.c_str(), fr.line, ef.file.c_str(), ef.line));
                 if (fr.testName != ef.testName) r.fail(prop, "failure_owner", sfmt("failure attributed to %s, expected %s", fr.testName.c_str(), ef.testName.c_str()));
                 if (ef.kind == 4) {
